@@ -15,6 +15,78 @@ type qfact struct {
 	bv    *Term
 	body  *Term // lo <= bv < hi => B(bv)
 	guard *Term
+	sorts map[string]bool // element sorts of the arrays the bound variable indexes ("*": none found, relevant to all)
+	n     int
+}
+
+const maxPerFact = 48
+
+// arrKey identifies the backing object of an element array term: the reference at which the element heap is read
+// (the same for all heap versions), or the term itself for arrays that are not heap objects (strings).
+func arrKey(arr *Term) string {
+	t := arr
+	for i := 0; i < 64; i++ {
+		switch t.op {
+		case "select":
+			if t.args[0].sort.isArray() {
+				_, v := t.args[0].sort.arrayParts()
+				if v.isArray() {
+					return "ref:" + strconv.Itoa(t.args[1].id)
+				}
+			}
+			return "arr:" + strconv.Itoa(t.id)
+		case "ite":
+			t = t.args[1]
+			continue
+		case "store":
+			t = t.args[0]
+			continue
+		}
+		break
+	}
+	return "arr:" + strconv.Itoa(t.id)
+}
+
+// indexSorts finds the element sorts of the arrays that are indexed by an expression containing bv.
+func indexSorts(body, bv *Term) map[string]bool {
+	out := map[string]bool{}
+	memo := map[int]bool{}
+	var mentions func(t *Term) bool
+	mentions = func(t *Term) bool {
+		if v, ok := memo[t.id]; ok {
+			return v
+		}
+		r := t == bv
+		for _, a := range t.args {
+			if mentions(a) {
+				r = true
+			}
+		}
+		memo[t.id] = r
+		return r
+	}
+	seen := map[int]bool{}
+	var walk func(t *Term)
+	walk = func(t *Term) {
+		if seen[t.id] {
+			return
+		}
+		seen[t.id] = true
+		if len(t.op) > 3 && t.op[:3] == "at." && len(t.args) == 3 && mentions(t.args[2]) {
+			out[arrKey(t.args[0])] = true
+		}
+		if t.op == "select" && mentions(t.args[1]) && t.args[0].sort.isArray() {
+			out[arrKey(t.args[0])] = true
+		}
+		for _, a := range t.args {
+			walk(a)
+		}
+	}
+	walk(body)
+	if len(out) == 0 {
+		out["*"] = true
+	}
+	return out
 }
 
 const maxInstances = 1500
@@ -62,7 +134,7 @@ func (x *Exec) registerFacts(st *State, t *Term, guard *Term, depth int) {
 			return
 		}
 		x.qseen[key] = true
-		f := &qfact{bv: bv, body: body, guard: guard}
+		f := &qfact{bv: bv, body: body, guard: guard, sorts: indexSorts(body, bv)}
 		x.qfacts = append(x.qfacts, f)
 		for _, e := range x.interest {
 			x.instantiate(st, f, e, depth)
@@ -70,25 +142,41 @@ func (x *Exec) registerFacts(st *State, t *Term, guard *Term, depth int) {
 	case "exists":
 		// a positive existential hypothesis: name a witness
 		n, _ := strconv.Atoi(splitVal(t.val))
-		if n != 1 || hasFreeBound(t) {
+		if n != 1 || hasFreeBound(t) || depth > 2 {
 			return
 		}
-		key := [2]int{t.id, guard.id}
+		// one witness per existential formula
+		key := [2]int{t.id, -41}
 		if x.qseen[key] {
 			return
 		}
 		x.qseen[key] = true
 		k := Fresh("witness", t.args[0].sort)
 		inst := substTerm(t.args[1], map[int]*Term{t.args[0].id: k})
-		x.ctx.facts = append(x.ctx.facts, Implies(And(guard, t), inst))
-		x.addInterest(st, k)
-		x.registerFacts(st, inst, And(guard, t), depth+1)
+		x.ctx.facts = append(x.ctx.facts, Implies(t, inst))
+		x.linkAtTerms(inst)
+		// the witness is relevant to the arrays the existential talks about
+		for s := range indexSorts(t.args[1], t.args[0]) {
+			x.addInterest(st, k, s)
+		}
 	}
 }
 
 func (x *Exec) instantiate(st *State, f *qfact, e *Term, depth int) {
-	if x.ninst >= maxInstances || e.sort != f.bv.sort {
+	if x.ninst >= maxInstances || e.sort != f.bv.sort || f.n >= maxPerFact {
 		return
+	}
+	// relevance: the term must have been used as an index into an array of a sort the fact talks about
+	if !f.sorts["*"] {
+		rel := false
+		for s := range x.interestSorts[e.id] {
+			if f.sorts[s] || s == "*" {
+				rel = true
+			}
+		}
+		if !rel {
+			return
+		}
 	}
 	key := [2]int{f.body.id*7919 + f.guard.id, e.id}
 	if x.qseen[key] {
@@ -96,6 +184,7 @@ func (x *Exec) instantiate(st *State, f *qfact, e *Term, depth int) {
 	}
 	x.qseen[key] = true
 	x.ninst++
+	f.n++
 	if os.Getenv("GOVC_DEBUG") != "" {
 		fmt.Fprintf(os.Stderr, "DEBUG instantiate fact#%d at %s\n", f.body.id, truncate(e.String(), 60))
 	}
@@ -151,16 +240,27 @@ func (x *Exec) linkAtTerms(t *Term) {
 	walk(t, false)
 }
 
-// addInterest records an index term and instantiates the known facts at it.
-func (x *Exec) addInterest(st *State, e *Term) {
-	if e == nil || hasFreeBound(e) || x.interestSeen[e.id] {
+// addInterest records an index term (with the element sort of the array it indexes; "*" for skolem
+// constants) and instantiates the relevant known facts at it.
+func (x *Exec) addInterest(st *State, e *Term, sort string) {
+	if e == nil || hasFreeBound(e) {
 		return
 	}
 	if x.interestSeen == nil {
 		x.interestSeen = map[int]bool{}
+		x.interestSorts = map[int]map[string]bool{}
 	}
-	x.interestSeen[e.id] = true
-	x.interest = append(x.interest, e)
+	if x.interestSorts[e.id] == nil {
+		x.interestSorts[e.id] = map[string]bool{}
+	}
+	if x.interestSorts[e.id][sort] {
+		return
+	}
+	x.interestSorts[e.id][sort] = true
+	if !x.interestSeen[e.id] {
+		x.interestSeen[e.id] = true
+		x.interest = append(x.interest, e)
+	}
 	for _, f := range x.qfacts {
 		x.instantiate(st, f, e, 0)
 	}
@@ -189,7 +289,7 @@ func (x *Exec) skolemize(st *State, g *Term, depth int) *Term {
 		}
 		k := Fresh("sk."+bv.val, bv.sort)
 		inst := substTerm(body, map[int]*Term{bv.id: k})
-		x.addInterest(st, k)
+		x.addInterest(st, k, "*")
 		return x.skolemize(st, inst, depth+1)
 	}
 	return g
